@@ -35,7 +35,7 @@ Ltac hdr_skip k s hs HB O W :=
     [ apply mon1_run_skip with (Hi := Hi_hdr k); [exact HB | unfold Hi_hdr; nomention]
     | exists hs; split; [reflexivity |];
       match goal with |- only (owner_hdr ?s' ?kk) ?hh = true =>
-         replace (owner_hdr s' kk) with (owner_hdr s kk); [exact O|] end;
+         first [exact O | replace (owner_hdr s' kk) with (owner_hdr s kk); [exact O|]] end;
       destruct W; unfold owner_hdr, arecvb, crecvb; proj; bool_lia ] ].
 
 Lemma WF1_init n : WF1 n init.
